@@ -109,7 +109,7 @@ func (w *World) Apply(focus waddrmgr.KeyScope, op Op) *Result {
 	res := &Result{}
 	sm, err := w.Scoped(focus)
 	if err != nil && op.K != "new_scope" && op.K != "restart" && op.K != "lock" && op.K != "unlock" &&
-		op.K != "unlock_wrong" && op.K != "unlock_old" && op.K != "chpass_priv" && op.K != "chpass_pub" && op.K != "to_watching" && op.K != "set_synced" {
+		op.K != "unlock_wrong" && op.K != "unlock_old" && op.K != "chpass_priv" && op.K != "chpass_pub" && op.K != "to_watching" && op.K != "set_synced" && op.K != "set_synced_gap" {
 		res.Skipped = true
 		return res
 	}
@@ -437,6 +437,20 @@ func (w *World) Apply(focus waddrmgr.KeyScope, op Op) *Result {
 		if commit() {
 			w.Synced = bs
 		}
+	case "set_synced_gap":
+		// a stamp whose predecessor is not remembered, with the birthday block set (in the
+		// same transaction): PutSyncedTo refuses it, the closure returns the error, the
+		// transaction is rolled back. Nothing may remain of it, in memory either.
+		bs := waddrmgr.BlockStamp{Height: w.Synced.Height + 2,
+			Hash:      chainhash.Hash(sha256.Sum256([]byte(fmt.Sprintf("synced-gap-%d", w.Synced.Height+2)))),
+			Timestamp: w.Synced.Timestamp.Add(1200e9)}
+		res.Expect = "fail"
+		res.Err = tx(func(ns walletdb.ReadWriteBucket) error {
+			if err := w.Mgr.SetBirthdayBlock(ns, w.Synced, true); err != nil {
+				return err
+			}
+			return w.Mgr.SetSyncedTo(ns, &bs)
+		})
 	case "new_scope":
 		if w.HasCustom {
 			res.Skipped = true
